@@ -24,9 +24,36 @@ var fset = token.NewFileSet()
 var repo string
 var out strings.Builder
 
+type dieErr string
+
+// die: the source no longer has the shape this extractor understands.  Inside a section only the facts of that
+// section are withheld (see section); elsewhere the translator stops.
 func die(format string, a ...interface{}) {
-	fmt.Fprintf(os.Stderr, "srcfacts: "+format+"\n", a...)
-	os.Exit(2)
+	panic(dieErr(fmt.Sprintf(format, a...)))
+}
+
+var unrecognised []string
+
+// section runs one group of extractors.  If one of them does not recognise the source, everything the group has
+// written is dropped: the facts are then UNDEFINED in GenFacts.v, so exactly the Coq files that use them stop
+// compiling (and the properties that depend on those files report the broken proof), while every other fact and
+// every other property is unaffected.
+func section(name string, body func()) {
+	saved := out.String()
+	defer func() {
+		if r := recover(); r != nil {
+			msg, ok := r.(dieErr)
+			if !ok {
+				panic(r)
+			}
+			out.Reset()
+			out.WriteString(saved)
+			fmt.Fprintf(&out, "(* UNRECOGNISED %s: %s *)\n", name, strings.ReplaceAll(string(msg), "*)", "* )"))
+			unrecognised = append(unrecognised, name)
+			fmt.Fprintf(os.Stderr, "srcfacts: section %q withheld: %s\n", name, msg)
+		}
+	}()
+	body()
 }
 
 func parseFile(rel string) *ast.File {
@@ -203,7 +230,63 @@ func switchTable(f *ast.File, fn string, coqName string) {
 		return false
 	})
 	if !found {
-		die("%s: no `if len(x) > 0 { switch ... } else {...}` found", fn)
+		// the same thing written as ONE switch whose `case "":` clause assigns the default
+		for _, st := range fd.Body.List {
+			sw, ok := st.(*ast.SwitchStmt)
+			if !ok || sw.Init != nil || sw.Tag == nil {
+				continue
+			}
+			var tbl [][2]string
+			d, rejected, hasEmpty, okForm := "", false, false, true
+			for _, c := range sw.Body.List {
+				cc := c.(*ast.CaseClause)
+				if cc.List == nil {
+					if len(cc.Body) == 1 {
+						if rs, ok := cc.Body[0].(*ast.ReturnStmt); ok && len(rs.Results) == 1 {
+							if ce, ok := rs.Results[0].(*ast.CallExpr); ok && strings.HasSuffix(selName(ce.Fun), "rrorf") {
+								rejected = true
+								continue
+							}
+						}
+					}
+					okForm = false
+					break
+				}
+				if len(cc.Body) != 1 {
+					okForm = false
+					break
+				}
+				as, ok := cc.Body[0].(*ast.AssignStmt)
+				if !ok || len(as.Rhs) != 1 {
+					okForm = false
+					break
+				}
+				for _, l := range cc.List {
+					sl, ok := strLit(l)
+					if !ok {
+						okForm = false
+						break
+					}
+					if sl == "" {
+						if len(cc.List) != 1 {
+							okForm = false
+							break
+						}
+						hasEmpty = true
+						d = selName(as.Rhs[0])
+					} else {
+						tbl = append(tbl, [2]string{sl, selName(as.Rhs[0])})
+					}
+				}
+			}
+			if okForm && hasEmpty {
+				found, table, def, unknownRejected = true, tbl, d, rejected
+				break
+			}
+		}
+	}
+	if !found {
+		die("%s: neither `if len(x) > 0 { switch ... } else {...}` nor a switch with a `case \"\":` default found", fn)
 	}
 	fmt.Fprintf(&out, "Definition %s_table : list (string * string) := [", coqName)
 	for i, p := range table {
@@ -279,7 +362,8 @@ func enabledPredicate(f *ast.File, fn string, coqName string) {
 }
 
 // ---- VerifyClientCertificate: sequence of guarded stages
-//   if len(verifiedChains) > 0 { cc := ...; if isXEnabled(c) { revoked, err := c.Y.IsRevoked(..); if err != nil {return err}; if revoked.Revoked {return errors.New(..)} } ... } return nil
+//
+//	if len(verifiedChains) > 0 { cc := ...; if isXEnabled(c) { revoked, err := c.Y.IsRevoked(..); if err != nil {return err}; if revoked.Revoked {return errors.New(..)} } ... } return nil
 func verifyStages(f *ast.File) {
 	fd := findFunc(f, "VerifyClientCertificate")
 	body := fd.Body.List
@@ -655,9 +739,10 @@ func caddyHandlers(f *ast.File, fn string) (hs [][3]string, unknownRejected bool
 }
 
 // sigPolicy describes how a function of crlrepository.go applies signature_validation_mode:
-//   guardNone: verification is skipped under SignatureValidationModeNone
-//   fatal: "verify_only" (a verification failure ends the intake only under ...ModeVerify),
-//          "always", "never"
+//
+//	guardNone: verification is skipped under SignatureValidationModeNone
+//	fatal: "verify_only" (a verification failure ends the intake only under ...ModeVerify),
+//	       "always", "never"
 func sigPolicy(f *ast.File, fn string) (guardNone bool, fatal string) {
 	fd := findFunc(f, fn)
 	var verifyIf *ast.IfStmt
@@ -739,6 +824,15 @@ func sigPolicy(f *ast.File, fn string) (guardNone bool, fatal string) {
 }
 
 func main() {
+	defer func() {
+		if r := recover(); r != nil {
+			if msg, ok := r.(dieErr); ok {
+				fmt.Fprintf(os.Stderr, "srcfacts: %s\n", string(msg))
+				os.Exit(2)
+			}
+			panic(r)
+		}
+	}()
 	if len(os.Args) != 3 {
 		die("usage: srcfacts <repo> <out.v>")
 	}
@@ -746,329 +840,374 @@ func main() {
 	out.WriteString("(* GENERATED by /verif/tools/srcfacts from the working tree of /repo. Do not edit. *)\n")
 	out.WriteString("From Coq Require Import String List ZArith NArith Bool.\nImport ListNotations.\nOpen Scope string_scope.\n\n")
 
-	cp := parseFile("configparser.go")
-	switchTable(cp, "parseMode", "mode")
-	switchTable(cp, "parseSignatureValidationMode", "sigmode")
-	switchTable(cp, "parseStorageType", "storage")
-	switchTable(cp, "parseCDPConfig", "fetchmode")
-	if v := evalConst(findConst(cp, "defaultCRLUpdateInterval"), timeEnv); v != nil {
-		fmt.Fprintf(&out, "Definition default_update_interval_ns : Z := %s%%Z.\n", v.ExactString())
-	} else {
-		die("defaultCRLUpdateInterval not evaluable")
-	}
-
-	cfg := parseFile("config/config.go")
-	enumOrder(cfg, "RevocationCheckMode", "mode")
-	enumOrder(cfg, "SignatureValidationMode", "sigmode")
-	enumOrder(cfg, "StorageType", "storage")
-	enumOrder(cfg, "CRLFetchMode", "fetchmode")
-
-	rev := parseFile("revocation.go")
-	enabledPredicate(rev, "isOCSPCheckingEnabled", "ocsp_enabled_consts")
-	enabledPredicate(rev, "isCRLCheckingEnabled", "crl_enabled_consts")
-	verifyStages(rev)
-
-	ap := parseFile("core/asn1parser/asn1parser.go")
-	lengthMasks(ap, "ReadLength", "read_length")
-	lengthMasks(ap, "PeekLength", "peek_length")
-	fmt.Fprintf(&out, "Definition struct_limit : Z := %s%%Z.\n", callArgConst(ap, "ReadStruct", "ReadTVLBytesWithLimit", 2))
-
-	// every primitive value read goes through ReadValueBytesWithLimit with a constant limit
-	out.WriteString("Definition value_limit_sites : list (string * Z) := [")
-	for i, fn := range []string{"ReadUtcTime", "ParseBitString", "ParseOctetString", "ReadBigInt"} {
-		if i > 0 {
-			out.WriteString("; ")
+	section("configuration tables and defaults (configparser.go, config/config.go)", func() {
+		cp := parseFile("configparser.go")
+		switchTable(cp, "parseMode", "mode")
+		switchTable(cp, "parseSignatureValidationMode", "sigmode")
+		switchTable(cp, "parseStorageType", "storage")
+		switchTable(cp, "parseCDPConfig", "fetchmode")
+		if v := evalConst(findConst(cp, "defaultCRLUpdateInterval"), timeEnv); v != nil {
+			fmt.Fprintf(&out, "Definition default_update_interval_ns : Z := %s%%Z.\n", v.ExactString())
+		} else {
+			die("defaultCRLUpdateInterval not evaluable")
 		}
-		fmt.Fprintf(&out, "(%s, %s%%Z)", coqStr(fn), callArgConst(ap, fn, "ReadValueBytesWithLimit", 2))
-		// and the unbounded primitive must not be called directly there
-		direct := false
-		ast.Inspect(findFunc(ap, fn).Body, func(n ast.Node) bool {
-			if ce, ok := n.(*ast.CallExpr); ok && selName(ce.Fun) == "ReadExpectedBytes" {
-				direct = true
+
+		cfg := parseFile("config/config.go")
+		enumOrder(cfg, "RevocationCheckMode", "mode")
+		enumOrder(cfg, "SignatureValidationMode", "sigmode")
+		enumOrder(cfg, "StorageType", "storage")
+		enumOrder(cfg, "CRLFetchMode", "fetchmode")
+	})
+
+	section("mode predicates and verifier stages (revocation.go)", func() {
+		rev := parseFile("revocation.go")
+		enabledPredicate(rev, "isOCSPCheckingEnabled", "ocsp_enabled_consts")
+		enabledPredicate(rev, "isCRLCheckingEnabled", "crl_enabled_consts")
+		verifyStages(rev)
+	})
+
+	section("asn1 length decoding and limits (asn1parser.go)", func() {
+		ap := parseFile("core/asn1parser/asn1parser.go")
+		lengthMasks(ap, "ReadLength", "read_length")
+		lengthMasks(ap, "PeekLength", "peek_length")
+		fmt.Fprintf(&out, "Definition struct_limit : Z := %s%%Z.\n", callArgConst(ap, "ReadStruct", "ReadTVLBytesWithLimit", 2))
+
+		// every primitive value read goes through ReadValueBytesWithLimit with a constant limit
+		out.WriteString("Definition value_limit_sites : list (string * Z) := [")
+		for i, fn := range []string{"ReadUtcTime", "ParseBitString", "ParseOctetString", "ReadBigInt"} {
+			if i > 0 {
+				out.WriteString("; ")
 			}
-			return true
-		})
-		if direct {
-			die("%s calls ReadExpectedBytes directly (unbounded length)", fn)
+			fmt.Fprintf(&out, "(%s, %s%%Z)", coqStr(fn), callArgConst(ap, fn, "ReadValueBytesWithLimit", 2))
+			// and the unbounded primitive must not be called directly there
+			direct := false
+			ast.Inspect(findFunc(ap, fn).Body, func(n ast.Node) bool {
+				if ce, ok := n.(*ast.CallExpr); ok && selName(ce.Fun) == "ReadExpectedBytes" {
+					direct = true
+				}
+				return true
+			})
+			if direct {
+				die("%s calls ReadExpectedBytes directly (unbounded length)", fn)
+			}
 		}
-	}
-	out.WriteString("].\n")
+		out.WriteString("].\n")
+	})
 
-	hs := parseFile("core/hashing/hashes.go")
-	fmt.Fprintf(&out, "Definition fnv_offset64 : N := %s%%N.\n", evalConst(findConst(hs, "offset64"), nil).ExactString())
-	fmt.Fprintf(&out, "Definition fnv_prime64 : N := %s%%N.\n", evalConst(findConst(hs, "prime64"), nil).ExactString())
+	section("hash constants (hashes.go)", func() {
+		hs := parseFile("core/hashing/hashes.go")
+		fmt.Fprintf(&out, "Definition fnv_offset64 : N := %s%%N.\n", evalConst(findConst(hs, "offset64"), nil).ExactString())
+		fmt.Fprintf(&out, "Definition fnv_prime64 : N := %s%%N.\n", evalConst(findConst(hs, "prime64"), nil).ExactString())
+	})
 
-	cs := parseFile("crl/crlstore/crlstore.go")
-	fmt.Fprintf(&out, "Definition key_meta : string := %s.\n", coqStr(stringConst(cs, "MetaInfoKey")))
-	fmt.Fprintf(&out, "Definition key_extmeta : string := %s.\n", coqStr(stringConst(cs, "ExtendedMetaInfoKey")))
-	fmt.Fprintf(&out, "Definition key_sigcert : string := %s.\n", coqStr(stringConst(cs, "SignatureCertKey")))
-	fmt.Fprintf(&out, "Definition key_locations : string := %s.\n", coqStr(stringConst(cs, "CRLLocationKey")))
-	seps := keySeparators(parseFile("crl/crlstore/map.go"), "MapStore", []string{"InsertRevokedCert", "GetCertRevocationStatus"})
-	seps = append(seps, keySeparators(parseFile("crl/crlstore/leveldb.go"), "LevelDbStore", []string{"InsertRevokedCert", "GetCertRevocationStatus"})...)
-	if len(seps) != 4 {
-		die("expected 4 key constructions, found %d", len(seps))
-	}
-	fmt.Fprintf(&out, "(* map insert, map lookup, leveldb insert, leveldb lookup *)\nDefinition key_separators : list string := %s.\n", coqStrList(seps))
-
-	es := parseFile("crl/crlreader/extensionsupport/extensionsupport.go")
-	oids := map[string]string{}
-	for _, n := range []string{"OidCertExtSubjectKeyId", "OidCertExtAuthorityKeyId", "OidCrlExtCrlNumber"} {
-		oids[n] = stringConst(es, n)
-	}
-	handled := mapLiteralStrings(es, "handledCRLExtensions", oids)
-	var hl []string
-	for _, p := range handled {
-		if p[1] != "true" {
-			die("handledCRLExtensions: value %s", p[1])
+	section("store keys (crlstore.go, map.go, leveldb.go)", func() {
+		cs := parseFile("crl/crlstore/crlstore.go")
+		fmt.Fprintf(&out, "Definition key_meta : string := %s.\n", coqStr(stringConst(cs, "MetaInfoKey")))
+		fmt.Fprintf(&out, "Definition key_extmeta : string := %s.\n", coqStr(stringConst(cs, "ExtendedMetaInfoKey")))
+		fmt.Fprintf(&out, "Definition key_sigcert : string := %s.\n", coqStr(stringConst(cs, "SignatureCertKey")))
+		fmt.Fprintf(&out, "Definition key_locations : string := %s.\n", coqStr(stringConst(cs, "CRLLocationKey")))
+		seps := keySeparators(parseFile("crl/crlstore/map.go"), "MapStore", []string{"InsertRevokedCert", "GetCertRevocationStatus"})
+		seps = append(seps, keySeparators(parseFile("crl/crlstore/leveldb.go"), "LevelDbStore", []string{"InsertRevokedCert", "GetCertRevocationStatus"})...)
+		if len(seps) != 4 {
+			die("expected 4 key constructions, found %d", len(seps))
 		}
-		hl = append(hl, p[0])
-	}
-	fmt.Fprintf(&out, "Definition handled_crl_extensions : list string := %s.\n", coqStrList(hl))
-	fmt.Fprintf(&out, "Definition oid_aki : string := %s.\nDefinition oid_ski : string := %s.\nDefinition oid_crl_number : string := %s.\n",
-		coqStr(oids["OidCertExtAuthorityKeyId"]), coqStr(oids["OidCertExtSubjectKeyId"]), coqStr(oids["OidCrlExtCrlNumber"]))
+		fmt.Fprintf(&out, "(* map insert, map lookup, leveldb insert, leveldb lookup *)\nDefinition key_separators : list string := %s.\n", coqStrList(seps))
+	})
 
-	hv := parseFile("core/signatureverify/hashandverifystrategieslookup.go")
-	emitPairs("oid_hash_table", mapLiteralStrings(hv, "oidToHashAlgorithmMap", nil))
-	emitPairs("oid_prefix_verifier_table", mapLiteralStrings(hv, "oidPrefixToVerifyStrategyMap", nil))
+	section("CRL extensions and OIDs (extensionsupport.go)", func() {
+		es := parseFile("crl/crlreader/extensionsupport/extensionsupport.go")
+		oids := map[string]string{}
+		for _, n := range []string{"OidCertExtSubjectKeyId", "OidCertExtAuthorityKeyId", "OidCrlExtCrlNumber"} {
+			oids[n] = stringConst(es, n)
+		}
+		handled := mapLiteralStrings(es, "handledCRLExtensions", oids)
+		var hl []string
+		for _, p := range handled {
+			if p[1] != "true" {
+				die("handledCRLExtensions: value %s", p[1])
+			}
+			hl = append(hl, p[0])
+		}
+		fmt.Fprintf(&out, "Definition handled_crl_extensions : list string := %s.\n", coqStrList(hl))
+		fmt.Fprintf(&out, "Definition oid_aki : string := %s.\nDefinition oid_ski : string := %s.\nDefinition oid_crl_number : string := %s.\n",
+			coqStr(oids["OidCertExtAuthorityKeyId"]), coqStr(oids["OidCertExtSubjectKeyId"]), coqStr(oids["OidCrlExtCrlNumber"]))
+	})
 
-	oc := parseFile("ocsp/ocsprevocationchecker.go")
-	if v := evalConst(findConst(oc, "maxClockSkew"), timeEnv); v != nil {
-		fmt.Fprintf(&out, "Definition max_clock_skew_ns : Z := %s%%Z.\n", v.ExactString())
-	} else {
-		die("maxClockSkew not evaluable")
-	}
+	section("signature algorithm tables (hashandverifystrategieslookup.go)", func() {
+		hv := parseFile("core/signatureverify/hashandverifystrategieslookup.go")
+		emitPairs("oid_hash_table", mapLiteralStrings(hv, "oidToHashAlgorithmMap", nil))
+		emitPairs("oid_prefix_verifier_table", mapLiteralStrings(hv, "oidPrefixToVerifyStrategyMap", nil))
+	})
+
+	section("OCSP clock skew (ocsprevocationchecker.go)", func() {
+		oc := parseFile("ocsp/ocsprevocationchecker.go")
+		if v := evalConst(findConst(oc, "maxClockSkew"), timeEnv); v != nil {
+			fmt.Fprintf(&out, "Definition max_clock_skew_ns : Z := %s%%Z.\n", v.ExactString())
+		} else {
+			die("maxClockSkew not evaluable")
+		}
+	})
 
 	// updateWasRecentlyFinished: `!last.IsZero() && (time.Since(last) < interval / K)`
-	ck := parseFile("crl/crlrevocationchecker.go")
-	{
-		fd := findFunc(ck, "updateWasRecentlyFinished")
-		if len(fd.Body.List) != 1 {
-			die("updateWasRecentlyFinished: shape")
+	section("refresh ticker (crlrevocationchecker.go)", func() {
+		ck := parseFile("crl/crlrevocationchecker.go")
+		{
+			fd := findFunc(ck, "updateWasRecentlyFinished")
+			if len(fd.Body.List) != 1 {
+				die("updateWasRecentlyFinished: shape")
+			}
+			rs, ok := fd.Body.List[0].(*ast.ReturnStmt)
+			if !ok {
+				die("updateWasRecentlyFinished: shape")
+			}
+			and, ok := rs.Results[0].(*ast.BinaryExpr)
+			if !ok || and.Op != token.LAND {
+				die("updateWasRecentlyFinished: not a conjunction")
+			}
+			neg, ok := and.X.(*ast.UnaryExpr)
+			if !ok || neg.Op != token.NOT {
+				die("updateWasRecentlyFinished: first conjunct is not !x.IsZero()")
+			}
+			if c, ok := neg.X.(*ast.CallExpr); !ok || selName(c.Fun) != "IsZero" {
+				die("updateWasRecentlyFinished: first conjunct is not !x.IsZero()")
+			}
+			cmp, ok := and.Y.(*ast.ParenExpr)
+			if !ok {
+				die("updateWasRecentlyFinished: second conjunct")
+			}
+			lt, ok := cmp.X.(*ast.BinaryExpr)
+			if !ok || lt.Op != token.LSS {
+				die("updateWasRecentlyFinished: comparison is not <")
+			}
+			if c, ok := lt.X.(*ast.CallExpr); !ok || selName(c.Fun) != "Since" {
+				die("updateWasRecentlyFinished: lhs is not time.Since")
+			}
+			div, ok := lt.Y.(*ast.BinaryExpr)
+			if !ok || div.Op != token.QUO || selName(div.X) != "UpdateIntervalParsed" {
+				die("updateWasRecentlyFinished: rhs is not interval / k")
+			}
+			fmt.Fprintf(&out, "Definition skip_divisor : Z := %s%%Z.\n", evalConst(div.Y, nil).ExactString())
 		}
-		rs, ok := fd.Body.List[0].(*ast.ReturnStmt)
-		if !ok {
-			die("updateWasRecentlyFinished: shape")
-		}
-		and, ok := rs.Results[0].(*ast.BinaryExpr)
-		if !ok || and.Op != token.LAND {
-			die("updateWasRecentlyFinished: not a conjunction")
-		}
-		neg, ok := and.X.(*ast.UnaryExpr)
-		if !ok || neg.Op != token.NOT {
-			die("updateWasRecentlyFinished: first conjunct is not !x.IsZero()")
-		}
-		if c, ok := neg.X.(*ast.CallExpr); !ok || selName(c.Fun) != "IsZero" {
-			die("updateWasRecentlyFinished: first conjunct is not !x.IsZero()")
-		}
-		cmp, ok := and.Y.(*ast.ParenExpr)
-		if !ok {
-			die("updateWasRecentlyFinished: second conjunct")
-		}
-		lt, ok := cmp.X.(*ast.BinaryExpr)
-		if !ok || lt.Op != token.LSS {
-			die("updateWasRecentlyFinished: comparison is not <")
-		}
-		if c, ok := lt.X.(*ast.CallExpr); !ok || selName(c.Fun) != "Since" {
-			die("updateWasRecentlyFinished: lhs is not time.Since")
-		}
-		div, ok := lt.Y.(*ast.BinaryExpr)
-		if !ok || div.Op != token.QUO || selName(div.X) != "UpdateIntervalParsed" {
-			die("updateWasRecentlyFinished: rhs is not interval / k")
-		}
-		fmt.Fprintf(&out, "Definition skip_divisor : Z := %s%%Z.\n", evalConst(div.Y, nil).ExactString())
-	}
 
-	// is the "last update finished" stamp a field of the checker (per instance) or a package-level variable?
-	{
-		perInstance := false
-		ast.Inspect(findFunc(ck, "updateWasRecentlyFinished").Body, func(n ast.Node) bool {
-			if se, ok := n.(*ast.SelectorExpr); ok && se.Sel.Name == "lastCrlUpdateFinishTime" {
-				if id, ok := se.X.(*ast.Ident); ok && id.Name == "c" {
-					perInstance = true
-				}
-			}
-			return true
-		})
-		global := false
-		for _, d := range ck.Decls {
-			if gd, ok := d.(*ast.GenDecl); ok && gd.Tok == token.VAR {
-				for _, sp := range gd.Specs {
-					for _, n := range sp.(*ast.ValueSpec).Names {
-						if n.Name == "lastCrlUpdateFinishTime" {
-							global = true
-						}
-					}
-				}
-			}
-		}
-		fmt.Fprintf(&out, "Definition refresh_stamp_per_instance : bool := %v.\n", perInstance && !global)
-		// Cleanup closes the stop channel of the ticker goroutine
-		closes := false
-		ast.Inspect(findFunc(ck, "Cleanup").Body, func(n ast.Node) bool {
-			if ce, ok := n.(*ast.CallExpr); ok && selName(ce.Fun) == "close" && len(ce.Args) == 1 && selName(ce.Args[0]) == "crlUpdateStop" {
-				closes = true
-			}
-			return true
-		})
-		fmt.Fprintf(&out, "Definition cleanup_closes_stop_channel : bool := %v.\n", closes)
-	}
-
-	// does a crl found in a persistent store count without a check (newEntry.Loaded = true), or only after
-	// persistedCRLCounts: not under verify unless its verifying certificate is stored and still entitled?
-	{
-		rp := parseFile("crl/crlrepository/crlrepository.go")
-		checked, found := false, false
-		ast.Inspect(findFunc(rp, "addNewEmptyEntry").Body, func(n ast.Node) bool {
-			as, ok := n.(*ast.AssignStmt)
-			if !ok || len(as.Lhs) != 1 || len(as.Rhs) != 1 || selName(as.Lhs[0]) != "Loaded" {
-				return true
-			}
-			found = true
-			switch r := as.Rhs[0].(type) {
-			case *ast.Ident:
-				if r.Name != "true" {
-					die("addNewEmptyEntry: Loaded assigned from %s", r.Name)
-				}
-			case *ast.CallExpr:
-				if selName(r.Fun) != "persistedCRLCounts" {
-					die("addNewEmptyEntry: Loaded assigned from an unknown call")
-				}
-				checked = true
-			default:
-				die("addNewEmptyEntry: unexpected assignment to Loaded")
-			}
-			return true
-		})
-		if !found {
-			die("addNewEmptyEntry: no assignment to Loaded")
-		}
-		if checked {
-			// the shape of the check itself: verify-only guard, stored certificate required, entitlement + equality
-			fn := findFunc(rp, "persistedCRLCounts")
-			var guard, stored, entitled, equal bool
-			ast.Inspect(fn.Body, func(n ast.Node) bool {
-				switch x := n.(type) {
-				case *ast.BinaryExpr:
-					if x.Op == token.NEQ && selName(x.X) == "SignatureValidationModeParsed" && selName(x.Y) == "SignatureValidationModeVerify" {
-						guard = true
-					}
-				case *ast.CallExpr:
-					switch selName(x.Fun) {
-					case "GetCRLSignatureCert":
-						stored = true
-					case "IsEntitledCRLSigner":
-						entitled = true
-					case "Equal":
-						equal = true
+		// is the "last update finished" stamp a field of the checker (per instance) or a package-level variable?
+		{
+			perInstance := false
+			ast.Inspect(findFunc(ck, "updateWasRecentlyFinished").Body, func(n ast.Node) bool {
+				if se, ok := n.(*ast.SelectorExpr); ok && se.Sel.Name == "lastCrlUpdateFinishTime" {
+					if id, ok := se.X.(*ast.Ident); ok && id.Name == "c" {
+						perInstance = true
 					}
 				}
 				return true
 			})
-			if !(guard && stored && entitled && equal) {
-				die("persistedCRLCounts: shape not recognised (guard=%v stored=%v entitled=%v equal=%v)", guard, stored, entitled, equal)
-			}
-		}
-		fmt.Fprintf(&out, "Definition persisted_adoption_checked : bool := %v.\n", checked)
-	}
-
-	pr := parseFile("core/pemreader/pemreader.go")
-	fmt.Fprintf(&out, "Definition pem_max_line_length : nat := %s.\n", evalConst(findConst(pr, "pemMaxLineLength"), nil).ExactString())
-	{
-		e := findConst(pr, "pemPaddingRegEx")
-		ce, ok := e.(*ast.CallExpr)
-		if !ok {
-			die("pemPaddingRegEx shape")
-		}
-		bl, ok := ce.Args[0].(*ast.BasicLit)
-		if !ok {
-			die("pemPaddingRegEx not literal")
-		}
-		// the Go source text of the literal (escapes kept as written)
-		fmt.Fprintf(&out, "Definition pem_armour_regex_src : string := %s.\n", coqStr(strings.Trim(bl.Value, "\"`")))
-	}
-
-	rp := parseFile("crl/crlrepository/crlrepository.go")
-	{
-		pat := ""
-		ast.Inspect(findFunc(rp, "deleteIfTempFileOrDir").Body, func(n ast.Node) bool {
-			if ce, ok := n.(*ast.CallExpr); ok && selName(ce.Fun) == "MatchString" {
-				if s, ok := strLit(ce.Args[0]); ok {
-					pat = s
+			global := false
+			for _, d := range ck.Decls {
+				if gd, ok := d.(*ast.GenDecl); ok && gd.Tok == token.VAR {
+					for _, sp := range gd.Specs {
+						for _, n := range sp.(*ast.ValueSpec).Names {
+							if n.Name == "lastCrlUpdateFinishTime" {
+								global = true
+							}
+						}
+					}
 				}
 			}
-			return true
-		})
-		if pat == "" {
-			die("temp regex not found")
-		}
-		fmt.Fprintf(&out, "Definition temp_sweep_regex : string := %s.\n", coqStr(pat))
-		tp := ""
-		ast.Inspect(findFunc(rp, "createTempFile").Body, func(n ast.Node) bool {
-			if ce, ok := n.(*ast.CallExpr); ok && selName(ce.Fun) == "CreateTemp" {
-				if s, ok := strLit(ce.Args[1]); ok {
-					tp = s
+			fmt.Fprintf(&out, "Definition refresh_stamp_per_instance : bool := %v.\n", perInstance && !global)
+			// Cleanup closes the stop channel of the ticker goroutine
+			closes := false
+			ast.Inspect(findFunc(ck, "Cleanup").Body, func(n ast.Node) bool {
+				if ce, ok := n.(*ast.CallExpr); ok && selName(ce.Fun) == "close" && len(ce.Args) == 1 && selName(ce.Args[0]) == "crlUpdateStop" {
+					closes = true
 				}
-			}
-			return true
-		})
-		if tp == "" {
-			die("CreateTemp pattern not found")
+				return true
+			})
+			fmt.Fprintf(&out, "Definition cleanup_closes_stop_channel : bool := %v.\n", closes)
 		}
-		fmt.Fprintf(&out, "Definition temp_file_pattern : string := %s.\n", coqStr(tp))
-	}
-	{
-		ld := parseFile("crl/crlstore/leveldb.go")
-		var parts []string
-		ast.Inspect(findFunc(ld, "createRandomFileName").Body, func(n ast.Node) bool {
-			if ce, ok := n.(*ast.CallExpr); ok && selName(ce.Fun) == "Join" && len(ce.Args) == 2 {
-				ast.Inspect(ce.Args[1], func(m ast.Node) bool {
-					if s, ok := m.(*ast.BasicLit); ok {
-						v, _ := strconv.Unquote(s.Value)
-						parts = append(parts, v)
+	})
+
+	// does a crl found in a persistent store count without a check (newEntry.Loaded = true), or only after
+	// persistedCRLCounts: not under verify unless its verifying certificate is stored and still entitled?
+	section("adoption of persisted CRLs (crlrepository.go)", func() {
+		{
+			rp := parseFile("crl/crlrepository/crlrepository.go")
+			checked, found := false, false
+			ast.Inspect(findFunc(rp, "addNewEmptyEntry").Body, func(n ast.Node) bool {
+				as, ok := n.(*ast.AssignStmt)
+				if !ok || len(as.Lhs) != 1 || len(as.Rhs) != 1 || selName(as.Lhs[0]) != "Loaded" {
+					return true
+				}
+				found = true
+				switch r := as.Rhs[0].(type) {
+				case *ast.Ident:
+					if r.Name != "true" {
+						die("addNewEmptyEntry: Loaded assigned from %s", r.Name)
+					}
+				case *ast.CallExpr:
+					if selName(r.Fun) != "persistedCRLCounts" {
+						die("addNewEmptyEntry: Loaded assigned from an unknown call")
+					}
+					checked = true
+				default:
+					die("addNewEmptyEntry: unexpected assignment to Loaded")
+				}
+				return true
+			})
+			if !found {
+				die("addNewEmptyEntry: no assignment to Loaded")
+			}
+			if checked {
+				// the shape of the check itself: verify-only guard, stored certificate required, entitlement + equality
+				fn := findFunc(rp, "persistedCRLCounts")
+				var guard, stored, entitled, equal bool
+				// the body of the function and of the helpers of the same file that it calls (one level)
+				bodies := []*ast.BlockStmt{fn.Body}
+				ast.Inspect(fn.Body, func(n ast.Node) bool {
+					if ce, ok := n.(*ast.CallExpr); ok {
+						for _, d := range rp.Decls {
+							if fd, ok := d.(*ast.FuncDecl); ok && fd != fn && fd.Body != nil && fd.Name.Name == selName(ce.Fun) {
+								bodies = append(bodies, fd.Body)
+							}
+						}
 					}
 					return true
 				})
+				visit := func(n ast.Node) bool {
+					switch x := n.(type) {
+					case *ast.BinaryExpr:
+						if x.Op == token.NEQ && selName(x.X) == "SignatureValidationModeParsed" && selName(x.Y) == "SignatureValidationModeVerify" {
+							guard = true
+						}
+					case *ast.CallExpr:
+						switch selName(x.Fun) {
+						case "GetCRLSignatureCert":
+							stored = true
+						case "IsEntitledCRLSigner":
+							entitled = true
+						case "Equal":
+							equal = true
+						}
+					}
+					return true
+				}
+				for _, b := range bodies {
+					ast.Inspect(b, visit)
+				}
+				if !(guard && stored && entitled && equal) {
+					die("persistedCRLCounts: shape not recognised (guard=%v stored=%v entitled=%v equal=%v)", guard, stored, entitled, equal)
+				}
 			}
-			return true
-		})
-		if len(parts) != 2 {
-			die("createRandomFileName: expected prefix and suffix literals")
+			fmt.Fprintf(&out, "Definition persisted_adoption_checked : bool := %v.\n", checked)
 		}
-		fmt.Fprintf(&out, "Definition temp_dir_prefix : string := %s.\nDefinition temp_dir_suffix : string := %s.\n", coqStr(parts[0]), coqStr(parts[1]))
-	}
+	})
+
+	section("PEM reader constants (pemreader.go)", func() {
+		pr := parseFile("core/pemreader/pemreader.go")
+		fmt.Fprintf(&out, "Definition pem_max_line_length : nat := %s.\n", evalConst(findConst(pr, "pemMaxLineLength"), nil).ExactString())
+		{
+			e := findConst(pr, "pemPaddingRegEx")
+			ce, ok := e.(*ast.CallExpr)
+			if !ok {
+				die("pemPaddingRegEx shape")
+			}
+			bl, ok := ce.Args[0].(*ast.BasicLit)
+			if !ok {
+				die("pemPaddingRegEx not literal")
+			}
+			// the Go source text of the literal (escapes kept as written)
+			fmt.Fprintf(&out, "Definition pem_armour_regex_src : string := %s.\n", coqStr(strings.Trim(bl.Value, "\"`")))
+		}
+	})
+
+	section("temporary names and start-up sweep (crlrepository.go, leveldb.go)", func() {
+		rp := parseFile("crl/crlrepository/crlrepository.go")
+		{
+			pat := ""
+			ast.Inspect(findFunc(rp, "deleteIfTempFileOrDir").Body, func(n ast.Node) bool {
+				if ce, ok := n.(*ast.CallExpr); ok && selName(ce.Fun) == "MatchString" {
+					if s, ok := strLit(ce.Args[0]); ok {
+						pat = s
+					}
+				}
+				return true
+			})
+			if pat == "" {
+				die("temp regex not found")
+			}
+			fmt.Fprintf(&out, "Definition temp_sweep_regex : string := %s.\n", coqStr(pat))
+			tp := ""
+			ast.Inspect(findFunc(rp, "createTempFile").Body, func(n ast.Node) bool {
+				if ce, ok := n.(*ast.CallExpr); ok && selName(ce.Fun) == "CreateTemp" {
+					if s, ok := strLit(ce.Args[1]); ok {
+						tp = s
+					}
+				}
+				return true
+			})
+			if tp == "" {
+				die("CreateTemp pattern not found")
+			}
+			fmt.Fprintf(&out, "Definition temp_file_pattern : string := %s.\n", coqStr(tp))
+		}
+		{
+			ld := parseFile("crl/crlstore/leveldb.go")
+			var parts []string
+			ast.Inspect(findFunc(ld, "createRandomFileName").Body, func(n ast.Node) bool {
+				if ce, ok := n.(*ast.CallExpr); ok && selName(ce.Fun) == "Join" && len(ce.Args) == 2 {
+					ast.Inspect(ce.Args[1], func(m ast.Node) bool {
+						if s, ok := m.(*ast.BasicLit); ok {
+							v, _ := strconv.Unquote(s.Value)
+							parts = append(parts, v)
+						}
+						return true
+					})
+				}
+				return true
+			})
+			if len(parts) != 2 {
+				die("createRandomFileName: expected prefix and suffix literals")
+			}
+			fmt.Fprintf(&out, "Definition temp_dir_prefix : string := %s.\nDefinition temp_dir_suffix : string := %s.\n", coqStr(parts[0]), coqStr(parts[1]))
+		}
+	})
 
 	// Caddyfile adapter
-	cf := parseFile("caddyfile.go")
-	out.WriteString("(* block -> [(subdirective, (field, what the handler does with its argument))] *)\n")
-	out.WriteString("Definition caddyfile_handlers : list (string * list (string * (string * string))) := [")
-	blocks := [][2]string{{"top", "parseConfigEntryFromCaddyfile"}, {"crl", "parseCaddyFileCrlConfigEntry"}, {"cdp", "parseCaddyfileCRLCDPConfig"}, {"ocsp", "parseCaddyfileOCSPConfig"}}
-	var rejects []string
-	for i, b := range blocks {
-		if i > 0 {
-			out.WriteString("; ")
-		}
-		hs, rej := caddyHandlers(cf, b[1])
-		fmt.Fprintf(&out, "(%s, [", coqStr(b[0]))
-		for j, h := range hs {
-			if j > 0 {
+	section("Caddyfile adapter (caddyfile.go)", func() {
+		cf := parseFile("caddyfile.go")
+		out.WriteString("(* block -> [(subdirective, (field, what the handler does with its argument))] *)\n")
+		out.WriteString("Definition caddyfile_handlers : list (string * list (string * (string * string))) := [")
+		blocks := [][2]string{{"top", "parseConfigEntryFromCaddyfile"}, {"crl", "parseCaddyFileCrlConfigEntry"}, {"cdp", "parseCaddyfileCRLCDPConfig"}, {"ocsp", "parseCaddyfileOCSPConfig"}}
+		var rejects []string
+		for i, b := range blocks {
+			if i > 0 {
 				out.WriteString("; ")
 			}
-			fmt.Fprintf(&out, "(%s, (%s, %s))", coqStr(h[0]), coqStr(h[1]), coqStr(h[2]))
+			hs, rej := caddyHandlers(cf, b[1])
+			fmt.Fprintf(&out, "(%s, [", coqStr(b[0]))
+			for j, h := range hs {
+				if j > 0 {
+					out.WriteString("; ")
+				}
+				fmt.Fprintf(&out, "(%s, (%s, %s))", coqStr(h[0]), coqStr(h[1]), coqStr(h[2]))
+			}
+			out.WriteString("])")
+			rejects = append(rejects, fmt.Sprintf("(%s, %v)", coqStr(b[0]), rej))
 		}
-		out.WriteString("])")
-		rejects = append(rejects, fmt.Sprintf("(%s, %v)", coqStr(b[0]), rej))
-	}
-	out.WriteString("].\n")
-	fmt.Fprintf(&out, "Definition caddyfile_unknown_rejected : list (string * bool) := [%s].\n", strings.Join(rejects, "; "))
-	// do the entry parsers that assign into a struct of their caller receive it by pointer?
-	fmt.Fprintf(&out, "Definition caddyfile_by_pointer : list (string * bool) := [(\"top\", %v); (\"crl\", %v)].\n",
-		paramIsPointer(cf, "parseConfigEntryFromCaddyfile", "certRevocationValidatorConfig"), paramIsPointer(cf, "parseCaddyFileCrlConfigEntry", "crlConfig"))
+		out.WriteString("].\n")
+		fmt.Fprintf(&out, "Definition caddyfile_unknown_rejected : list (string * bool) := [%s].\n", strings.Join(rejects, "; "))
+		// do the entry parsers that assign into a struct of their caller receive it by pointer?
+		fmt.Fprintf(&out, "Definition caddyfile_by_pointer : list (string * bool) := [(\"top\", %v); (\"crl\", %v)].\n",
+			paramIsPointer(cf, "parseConfigEntryFromCaddyfile", "certRevocationValidatorConfig"), paramIsPointer(cf, "parseCaddyFileCrlConfigEntry", "crlConfig"))
+	})
 
 	// signature policy of the two CRL intake paths (first load / refresh)
-	for _, fn := range []string{"loadCRL", "updateCrlEntry"} {
-		guardNone, fatal := sigPolicy(rp, fn)
-		fmt.Fprintf(&out, "Definition sigpolicy_%s : bool * string := (%v, %s).\n", fn, guardNone, coqStr(fatal))
-	}
+	section("signature policy of the intake paths (crlrepository.go)", func() {
+		rp := parseFile("crl/crlrepository/crlrepository.go")
+		for _, fn := range []string{"loadCRL", "updateCrlEntry"} {
+			guardNone, fatal := sigPolicy(rp, fn)
+			fmt.Fprintf(&out, "Definition sigpolicy_%s : bool * string := (%v, %s).\n", fn, guardNone, coqStr(fatal))
+		}
+	})
+	fmt.Fprintf(&out, "(* sections whose source was not recognised (their facts are undefined above) *)\nDefinition unrecognised_sections : list string := %s.\n", coqStrList(unrecognised))
 
 	if err := os.WriteFile(os.Args[2], []byte(out.String()), 0644); err != nil {
 		die("%v", err)
